@@ -66,15 +66,28 @@ func (m *RequestError) unmarshal(buf []byte) error {
 	return nil
 }
 
+// reason returns the reason, truncated when the message would not fit
+// into the 16-bit payload length.
+func (m RequestError) reason() string {
+	// payload = code + retry interval (1 byte) + reason length (at most 3 bytes) + reason
+	maxLen := 0xFFFF - varint.Varint(m.Code).MarshalSize() - 1 - 3
+	if len(m.Reason) > maxLen {
+		return m.Reason[:maxLen]
+	}
+	return m.Reason
+}
+
 func (m RequestError) marshalSize() int {
+	reason := m.reason()
 	payloadSize := varint.Varint(m.Code).MarshalSize() + 1 +
-		varint.Varint(len(m.Reason)).MarshalSize() + len(m.Reason)
+		varint.Varint(len(reason)).MarshalSize() + len(reason)
 	return typeRequestError.MarshalSize() + 2 + payloadSize
 }
 
 func (m RequestError) marshalTo(buf []byte) int {
+	reason := m.reason()
 	payloadSize := varint.Varint(m.Code).MarshalSize() + 1 +
-		varint.Varint(len(m.Reason)).MarshalSize() + len(m.Reason)
+		varint.Varint(len(reason)).MarshalSize() + len(reason)
 	n := typeRequestError.MarshalTo(buf)
 	buf[n] = byte(payloadSize >> 8)
 	buf[n+1] = byte(payloadSize)
@@ -82,8 +95,8 @@ func (m RequestError) marshalTo(buf []byte) int {
 	n += varint.Varint(m.Code).MarshalTo(buf[n:])
 	buf[n] = 0x00
 	n++
-	n += varint.Varint(len(m.Reason)).MarshalTo(buf[n:])
-	n += copy(buf[n:], m.Reason)
+	n += varint.Varint(len(reason)).MarshalTo(buf[n:])
+	n += copy(buf[n:], reason)
 	return n
 }
 
